@@ -268,12 +268,12 @@ def check_one(J, cfg, ref_cache, key):
     elif which == "mgda":
         _, it, ep = cfg
         norm_eps = 0.0
-        agg = MGDA(epsilon=ep, max_iters=it)
+        agg = MGDA(ep, it)  # positional, documented order (epsilon, max_iters); C18 builds it by keyword
         label = f"mgda(max_iters={it},epsilon={ep})"
     else:
         _, c = cfg
         norm_eps = CAGRAD_NORM_EPS
-        agg = CAGrad(c=c, norm_eps=norm_eps)
+        agg = CAGrad(c, norm_eps)  # positional, documented order (c, norm_eps); C18 builds it by keyword
         label = f"cagrad(c={c})"
     if s < norm_eps or (which != "mgda" and s == 0.0):
         return None, {}, False, "dropped"
